@@ -265,6 +265,7 @@ func collectTerms(v *Value, out *[]*Term) {
 // references that existed at entry and are not covered by a modifies clause.
 func (x *Exec) checkFrame(c *Contract, sc *SpecScope, entry, rs *State, suffix string) {
 	allowed := map[string][]*Term{}
+	whole := map[string]bool{}
 	all := false
 	for _, m := range c.Modifies {
 		for _, loc := range x.specLocs(m, sc, entry, c) {
@@ -272,6 +273,10 @@ func (x *Exec) checkFrame(c *Contract, sc *SpecScope, entry, rs *State, suffix s
 				k := kr[0].(string)
 				if k == "*" {
 					all = true
+					continue
+				}
+				if strings.HasPrefix(k, "*") {
+					whole[k[1:]] = true // a whole ghost map (allof): only that map is exempt
 					continue
 				}
 				allowed[k] = append(allowed[k], kr[1].(*Term))
@@ -292,7 +297,7 @@ func (x *Exec) checkFrame(c *Contract, sc *SpecScope, entry, rs *State, suffix s
 		if !ok {
 			init = Var(k+"@0", heapSorts[k])
 		}
-		if final == init {
+		if final == init || whole[k] {
 			continue
 		}
 		srt := heapSorts[k]
